@@ -29,11 +29,18 @@ struct RunCtx{
   long distinct_inputs; const double* seen_inputs[8]; int nseen;
   std::string opkind; int opi; std::string prop_default;
   bool moved_in_run;
+  bool have_foreign; std::string f_prop,f_cls,f_sig,f_detail;
   RunCtx():out(0),tr(0),ctr(0),prob(0),live(0),cur_input(0),cur_t(0),in_proxy(false),rhs_evals(0),napply(0),rejections_fired(0),failures_fired(0),
-           reject_budget(0),fail_budget(0),hard_fail_at(0),distinct_inputs(0),nseen(0),opi(-1),moved_in_run(false){}
+           reject_budget(0),fail_budget(0),hard_fail_at(0),distinct_inputs(0),nseen(0),opi(-1),moved_in_run(false),have_foreign(false){}
   void violation(const std::string& prop,const std::string& cls,const std::string& sig,const std::string& detail){
     if(!out->ok) return;
     int sc=verif::alloc_in_scope(); verif::alloc_scope(0);      // may be called from a callback inside the library: harness strings must not live in the simulated heap
+    if(!prop_default.empty() && prop!=prop_default){
+      // a verdict of another property (the same engine serves several): remembered, reported at the end of the run unless this plan's own
+      // property is violated later; the run goes on so that the consequences that belong to the plan's property can show
+      if(!have_foreign){ have_foreign=true; f_prop=std::string(prop.c_str()); f_cls=std::string(cls.c_str()); f_sig=std::string(sig.c_str()); f_detail="op#"+std::to_string(opi)+" "+opkind+": "+detail.c_str(); }
+      verif::alloc_scope(sc); return;
+    }
     out->fail(std::string(cls.c_str()),std::string(sig.c_str()),"op#"+std::to_string(opi)+" "+opkind+": "+detail.c_str()); out->prop=std::string(prop.c_str());
     verif::alloc_scope(sc);
   }
